@@ -176,6 +176,16 @@ ResolveIn(nd, r) ==
 
 Resolve(r) == ResolveIn(node, r)
 
+\* A request whose predicted entity reads exactly like a process-wide constant, in a category for which no property routes the
+\* request to the constant (C13 names the routes: identifiers, named types, linkages, the `default` label, decltype(nullptr)):
+\* the library may answer with a node of its own that looks like the constant, or with the constant itself.  Nothing the listed
+\* properties say decides between the two, so the specification accepts both (the library at the pinned commit builds its own).
+AltRouteCats == {"Identifier", "As_type_id", "Linkage"}
+ConstLike(rec) == {k \in 1..NConst : ConstNodes[k] = rec}
+AltOfIn(nd, tb, r) == LET res == ResolveIn(nd, r) IN
+                      IF res.kind = "unify" /\ res.rec.c \notin AltRouteCats /\ ConstLike(res.rec) # {} /\ res.key \notin DOMAIN tb
+                      THEN CHOOSE k \in ConstLike(res.rec) : TRUE ELSE 0
+
 \* The identifiers carried by constants are the identifiers of their spellings (C04, C13): they are in the
 \* identifier table from the start.
 ConstIdents == {j \in 1..NConst : ConstNodes[j].c = "Identifier"}
